@@ -45,6 +45,31 @@ type c01tree struct {
 	// range functions obtained from InorderAfter earlier and not yet (or not
 	// only once) ranged: ranged later, they must describe the tree as it is then
 	kept []c01kept
+	// method values bound when the tree was created or cloned (every third tree
+	// is observed through them)
+	bLen     func() int
+	bIsEmpty func() bool
+	bMin     func() Elem
+	bMax     func() Elem
+	bGet     func(Elem) (Elem, bool)
+}
+
+// c01newTree wraps a tree; every fifth tree is first moved by value (the
+// owner holds the Tree struct itself and uses only the copy), every third one
+// gets method values bound now.
+func (h *c01hist) c01newTree(t *stree.Tree[Elem], ref *refSet) *c01tree {
+	h.made++
+	if h.made%5 == 3 {
+		cp := *t
+		t = &cp
+		h.c.Add("trees_moved_by_value", 1)
+	}
+	tr := &c01tree{t: t, ref: ref}
+	if h.made%3 == 1 {
+		tr.bLen, tr.bIsEmpty, tr.bMin, tr.bMax, tr.bGet = t.Len, t.IsEmpty, t.Min, t.Max, t.Get
+		h.c.Add("trees_observed_through_bound_method_values", 1)
+	}
+	return tr
 }
 
 type c01kept struct {
@@ -64,6 +89,7 @@ type c01hist struct {
 	failed bool
 	nontr  bool
 	steps  int
+	made   int // trees created so far (selects the variants in c01newTree)
 }
 
 func (h *c01hist) newTag() int { h.tag++; return h.tag }
@@ -81,24 +107,36 @@ func (h *c01hist) checkTree(ti int, focus int) {
 	tr := h.trees[ti]
 	t, ref := tr.t, tr.ref
 	n := len(ref.es)
-	if got := t.Len(); got != n {
-		h.fail("tree %d: Len=%d want %d", ti, got, n)
+	fLen, fIsEmpty, fMin, fMax := t.Len, t.IsEmpty, t.Min, t.Max
+	via := ""
+	if tr.bLen != nil {
+		fLen, fIsEmpty, fMin, fMax = tr.bLen, tr.bIsEmpty, tr.bMin, tr.bMax
+		via = " (called through a method value bound when the tree was created)"
+		if n > 0 {
+			if g, ok := tr.bGet(Elem{Key: ref.es[n/2].Key, Tag: -1}); !ok || g != ref.es[n/2] {
+				h.fail("tree %d: Get(%d)%s = (%v,%v) want %v", ti, ref.es[n/2].Key, via, g, ok, ref.es[n/2])
+				return
+			}
+		}
+	}
+	if got := fLen(); got != n {
+		h.fail("tree %d: Len%s=%d want %d", ti, via, got, n)
 		return
 	}
-	if got := t.IsEmpty(); got != (n == 0) {
-		h.fail("tree %d: IsEmpty=%v with %d keys", ti, got, n)
+	if got := fIsEmpty(); got != (n == 0) {
+		h.fail("tree %d: IsEmpty%s=%v with %d keys", ti, via, got, n)
 		return
 	}
 	var wmin, wmax Elem
 	if n > 0 {
 		wmin, wmax = ref.es[0], ref.es[n-1]
 	}
-	if got := t.Min(); got != wmin {
-		h.fail("tree %d: Min=%v want %v", ti, got, wmin)
+	if got := fMin(); got != wmin {
+		h.fail("tree %d: Min%s=%v want %v", ti, via, got, wmin)
 		return
 	}
-	if got := t.Max(); got != wmax {
-		h.fail("tree %d: Max=%v want %v", ti, got, wmax)
+	if got := fMax(); got != wmax {
+		h.fail("tree %d: Max%s=%v want %v", ti, via, got, wmax)
 		return
 	}
 	// A scan abandoned half-way: the loop body panics and the caller recovers.
@@ -363,7 +401,7 @@ func (h *c01hist) apply(ti int, op byte, key int) {
 	case 'K':
 		h.log.add("t%d := t%d.Clone()", len(h.trees), ti)
 		cl := tr.t.Clone()
-		h.trees = append(h.trees, &c01tree{t: cl, ref: tr.ref.clone()})
+		h.trees = append(h.trees, h.c01newTree(cl, tr.ref.clone()))
 		h.c.Add("clones", 1)
 	}
 	h.c.Step()
@@ -502,7 +540,7 @@ func c01sparse(c *fw.Ctx, r *rand.Rand, beta int) {
 	}
 	r.Shuffle(len(keys), func(i, j int) { keys[i], keys[j] = keys[j], keys[i] })
 	t := stree.New(beta, ref.cmp, keys...)
-	h.trees = []*c01tree{{t: t, ref: ref}}
+	h.trees = []*c01tree{h.c01newTree(t, ref)}
 	h.log.add("t0 := New(beta=%d, %d keys 0,2,4,...)  (sparse observation)", beta, n0)
 	last := r.IntN(2 * n0)
 	nops := 800 + r.IntN(c.Pick(1500, 6000))
@@ -565,7 +603,7 @@ func c01sparse(c *fw.Ctx, r *rand.Rand, beta int) {
 		case op < 13:
 			if len(h.trees) < 3 {
 				h.log.add("t%d := t%d.Clone()", len(h.trees), ti)
-				h.trees = append(h.trees, &c01tree{t: tr.t.Clone(), ref: tr.ref.clone()})
+				h.trees = append(h.trees, h.c01newTree(tr.t.Clone(), tr.ref.clone()))
 				c.Add("clones", 1)
 			}
 		default:
@@ -801,24 +839,24 @@ func c01history(h *c01hist, caseIdx int) {
 	var got []Elem
 	t.Inorder(func(e Elem) bool { got = append(got, e); return len(got) <= nk+2 })
 	if len(got) != len(allowed) {
-		h.trees = []*c01tree{{t: t, ref: ref}}
+		h.trees = []*c01tree{h.c01newTree(t, ref)}
 		h.fail("New with %d keys in %d classes holds %d keys: %s", nk, len(allowed), len(got), elemsString(got))
 		return
 	}
 	for j, e := range got {
 		if !allowed[ref.class(e.Key)][e] {
-			h.trees = []*c01tree{{t: t, ref: ref}}
+			h.trees = []*c01tree{h.c01newTree(t, ref)}
 			h.fail("New holds %v which is not one of the keys given for its class", e)
 			return
 		}
 		if j > 0 && ref.cmp(got[j-1], e) >= 0 {
-			h.trees = []*c01tree{{t: t, ref: ref}}
+			h.trees = []*c01tree{h.c01newTree(t, ref)}
 			h.fail("New: Inorder not strictly ascending at %v, %v", got[j-1], e)
 			return
 		}
 	}
 	ref.es = got
-	h.trees = []*c01tree{{t: t, ref: ref}}
+	h.trees = []*c01tree{h.c01newTree(t, ref)}
 	if dups {
 		h.c.Add("new_with_duplicates", 1)
 	}
